@@ -27,8 +27,10 @@ HeadFaults == {"503", "short-length"}     \* short-length: the HEAD answer annou
 RedirectFaults == {"503", "same-host"}
 ChunkFaults == {"flip", "trunc1", "reset", "503short", "503long", "range-ignored"}
 \* request slots of one attempt: manifest, per blob: head, redirect, first and second chunk request
-Slots == {<<"m", 0>>} \cup {<<c, b>> : c \in {"h", "r", "ca", "cb"}, b \in Blobs}
-FaultsOf(s) == CASE s[1] = "m" -> ManifestFaults [] s[1] = "h" -> HeadFaults [] s[1] = "r" -> RedirectFaults
+\* ... and <<"v", 0>>: the caller gives up (cancels its context) when the pull announces the verification stage; the stage
+\* does not look at the context, so in the code as it is this changes nothing -- which is what the model says
+Slots == {<<"m", 0>>, <<"v", 0>>} \cup {<<c, b>> : c \in {"h", "r", "ca", "cb"}, b \in Blobs}
+FaultsOf(s) == CASE s[1] = "m" -> ManifestFaults [] s[1] = "v" -> {"cancel"} [] s[1] = "h" -> HeadFaults [] s[1] = "r" -> RedirectFaults
                  [] OTHER -> ChunkFaults
 NoPart == [done |-> 0, good |-> TRUE]
 \* what one chunk request does to a partial file: <<units done, all good?, finished the part?>>
